@@ -1,5 +1,4 @@
-(* C20_TextProofs: integer text, Timestamp text, IPv4 / ip:port text, port byte order,
-   and the link between the civil-time API and the seconds-level zone lemmas. *)
+(* C20_TextProofs: integer text, Timestamp text, and the link between the civil-time API and the seconds-level zone lemmas. *)
 From Coq Require Import List ZArith Bool Arith Lia.
 From Coq.Strings Require Import Byte.
 From Muduo Require Import Base_Bytes Gen_C20 C20_Model C20_SweepDefs C20_Sweep C20_Proofs C20_TzProofs.
@@ -210,149 +209,6 @@ Proof.
   rewrite Hback. assert (Hk : kMicroSecondsPerSecond = 1000000) by reflexivity. rewrite Hk.
   pose proof (Z.div_mod us 1000000). lia.
 Qed.
-
-(* ---- IPv4 dotted quad -------------------------------------------------------------------- *)
-
-Definition chk_octet (o : Z) : bool :=
-  match parse_octet (dec o) with Some b => Byte.eqb b (byte_of_Z o) | None => false end &&
-  forallb (fun c => negb (Byte.eqb c ch_dot) && negb (Byte.eqb c ch_colon)) (dec o) &&
-  match dec o with c :: _ => negb (Byte.eqb c ch_lbr) | [] => false end.
-
-Lemma sweep_octets : forallb chk_octet (zs 0 256) = true.
-Proof. vm_cast_no_check (eq_refl true). Qed.
-
-Lemma octet_facts (b : byte) :
-  parse_octet (dec (Z_of_byte b)) = Some b /\
-  Forall (fun c => Byte.eqb c ch_dot = false /\ Byte.eqb c ch_colon = false) (dec (Z_of_byte b)) /\
-  exists c r, dec (Z_of_byte b) = c :: r /\ Byte.eqb c ch_lbr = false.
-Proof.
-  pose proof (Z_of_byte_range b) as Hb.
-  pose proof (forallb_zs _ _ _ sweep_octets (Z_of_byte b) ltac:(lia)) as H. unfold chk_octet in H.
-  rewrite !andb_true_iff in H. destruct H as [[H1 H2] H3].
-  split; [|split].
-  - destruct (parse_octet (dec (Z_of_byte b))) as [b'|]; [|discriminate].
-    apply Byte.byte_dec_bl in H1. rewrite byte_of_Z_of_byte in H1. congruence.
-  - rewrite forallb_forall in H2. apply Forall_forall. intros c Hc. specialize (H2 c Hc).
-    rewrite andb_true_iff, !negb_true_iff in H2. exact H2.
-  - destruct (dec (Z_of_byte b)) as [|c r]; [discriminate|]. exists c, r. split; [reflexivity|].
-    apply negb_true_iff. exact H3.
-Qed.
-
-Lemma split_all_aux_nosep sep x l cur : Forall (fun b => Byte.eqb b sep = false) x ->
-  split_all_aux sep (x ++ l) cur = split_all_aux sep l (rev x ++ cur).
-Proof.
-  intros H. revert cur. induction H as [|b r Hb _ IH]; intros cur; [reflexivity|].
-  cbn [app split_all_aux]. rewrite Hb, IH. cbn [rev]. rewrite <- app_assoc. reflexivity.
-Qed.
-
-Lemma split_field sep x r : Forall (fun b => Byte.eqb b sep = false) x ->
-  split_all_aux sep (x ++ sep :: r) [] = x :: split_all_aux sep r [].
-Proof.
-  intros H. rewrite split_all_aux_nosep by exact H. cbn [split_all_aux].
-  assert (E : Byte.eqb sep sep = true) by (apply Byte.byte_dec_lb; reflexivity).
-  rewrite E, app_nil_r, rev_involutive. reflexivity.
-Qed.
-
-Lemma split_last_field sep x : Forall (fun b => Byte.eqb b sep = false) x ->
-  split_all_aux sep x [] = [x].
-Proof.
-  intros H. rewrite <- (app_nil_r x) at 1. rewrite split_all_aux_nosep by exact H.
-  cbn [split_all_aux]. rewrite app_nil_r, rev_involutive. reflexivity.
-Qed.
-
-Lemma nodot b : Forall (fun c => Byte.eqb c ch_dot = false) (dec (Z_of_byte b)).
-Proof. destruct (octet_facts b) as (_ & H & _). eapply Forall_impl; [|exact H]. cbv beta. tauto. Qed.
-
-(* inet_pton(AF_INET) o inet_ntop(AF_INET) = id, for all 2^32 addresses *)
-Lemma ipv4_roundtrip a b c d : pton4 (ntop4 [a; b; c; d]) = Some [a; b; c; d].
-Proof.
-  unfold pton4, ntop4, split_all. cbn [map join].
-  rewrite (split_field _ _ _ (nodot a)), (split_field _ _ _ (nodot b)), (split_field _ _ _ (nodot c)),
-          (split_last_field _ _ (nodot d)).
-  cbn [length Nat.eqb map].
-  destruct (octet_facts a) as (-> & _), (octet_facts b) as (-> & _), (octet_facts c) as (-> & _), (octet_facts d) as (-> & _).
-  reflexivity.
-Qed.
-
-Lemma ntop4_no_colon a b c d : has_colon (ntop4 [a; b; c; d]) = false.
-Proof.
-  unfold has_colon, ntop4. cbn [map join].
-  assert (Hn : forall x, existsb (fun b0 => Byte.eqb b0 ch_colon) (dec (Z_of_byte x)) = false).
-  { intros x. destruct (octet_facts x) as (_ & H & _).
-    induction H as [|y r [_ Hy] _ IH]; [reflexivity|]. cbn [existsb]. rewrite Hy, IH. reflexivity. }
-  replace (Byte.eqb ch_dot ch_colon) with false in * by reflexivity.
-  repeat (rewrite existsb_app; cbn [existsb]; rewrite ?Hn;
-          replace (Byte.eqb ch_dot ch_colon) with false by reflexivity; cbn [orb]).
-  rewrite ?Hn; reflexivity.
-Qed.
-
-(* ---- port byte order, ip:port assembly --------------------------------------------------- *)
-
-Lemma port_roundtrip p : 0 <= p < 65536 -> port_load (port_store p) = p /\ length (port_store p) = 2%nat.
-Proof.
-  intros Hp. unfold port_load, port_store. split; [|apply be_encode_length].
-  apply be_unsigned_roundtrip. change (256 ^ Z.of_nat 2) with 65536. exact Hp.
-Qed.
-
-Lemma split_last_none sep y : Forall (fun b => Byte.eqb b sep = false) y -> split_last_aux sep y = None.
-Proof. induction 1 as [|b r Hb _ IH]; [reflexivity|]. cbn [split_last_aux]. rewrite IH, Hb. reflexivity. Qed.
-
-Lemma split_last_app sep x y : Forall (fun b => Byte.eqb b sep = false) y ->
-  split_last_aux sep (x ++ sep :: y) = Some (x, y).
-Proof.
-  intros Hy. induction x as [|b r IH]; cbn [app split_last_aux].
-  - rewrite (split_last_none _ _ Hy).
-    assert (E : Byte.eqb sep sep = true) by (apply Byte.byte_dec_lb; reflexivity). rewrite E. reflexivity.
-  - rewrite IH. reflexivity.
-Qed.
-
-Lemma dec_no_colon n : Forall (fun b => Byte.eqb b ch_colon = false) (dec n).
-Proof.
-  unfold dec. eapply Forall_impl; [|apply pad_digits]. cbv beta. intros b Hb.
-  destruct (Byte.eqb b ch_colon) eqn:E; [|reflexivity].
-  apply Byte.byte_dec_bl in E. subst b. discriminate.
-Qed.
-
-(* muduo's own contribution to "ip:port" / "[ip6]:port": whatever inet_ntop(AF_INET6) prints,
-   the text splits back into (family, ip text, port) *)
-Lemma ipport_roundtrip ntop6 sa p :
-  0 <= p < 65536 -> sa_port sa = port_store p ->
-  (sa_family sa = AF_INET -> exists a b c d, sa_addr sa = [a; b; c; d]) ->
-  parse_ipport (toIpPort ntop6 sa) = Some (match sa_family sa with AF_INET6 => true | AF_INET => false end,
-                                            toIp ntop6 sa, p).
-Proof.
-  intros Hp Hport H4. unfold parse_ipport, toIpPort. rewrite Hport.
-  destruct (port_roundtrip p Hp) as [Hpl _]. rewrite Hpl.
-  assert (Hpd : parse_dec (dec p) = p) by (apply parse_dec_dec; lia).
-  destruct (sa_family sa) eqn:Ef.
-  - destruct (H4 eq_refl) as (a & b & c & d & Ha).
-    cbn [app]. rewrite split_last_app by apply dec_no_colon.
-    unfold toIp. rewrite Ef, Ha. unfold ntop4. cbn [map join].
-    destruct (octet_facts a) as (_ & _ & c0 & r0 & E0 & Hc0). rewrite E0. cbn [app].
-    rewrite Hc0, Hpd. reflexivity.
-  - replace ([ch_lbr] ++ toIp ntop6 sa ++ [ch_rbr; ch_colon] ++ dec p)
-      with ((ch_lbr :: toIp ntop6 sa ++ [ch_rbr]) ++ ch_colon :: dec p)
-      by (cbn [app]; rewrite <- app_assoc; reflexivity).
-    rewrite split_last_app by apply dec_no_colon.
-    replace (Byte.eqb ch_lbr ch_lbr) with true by reflexivity.
-    rewrite rev_app_distr. cbn [rev app].
-    replace (Byte.eqb ch_rbr ch_rbr) with true by reflexivity.
-    rewrite rev_involutive, Hpd. reflexivity.
-Qed.
-
-(* family choice of InetAddress(ip, port, ipv6) and the IPv4 text -> address -> text loop *)
-Lemma inet_make_ipv4 pton6 a b c d p : 0 <= p < 65536 ->
-  let sa := inet_make pton6 (ntop4 [a; b; c; d]) p false in
-  sa_family sa = AF_INET /\ sa_addr sa = [a; b; c; d] /\ port_load (sa_port sa) = p /\
-  forall ntop6, toIp ntop6 sa = ntop4 [a; b; c; d].
-Proof.
-  intros Hp. cbv zeta. unfold inet_make. rewrite ntop4_no_colon. cbn [orb].
-  rewrite ipv4_roundtrip. cbn [sa_family sa_addr sa_port]. repeat split; auto.
-  apply (proj1 (port_roundtrip p Hp)).
-Qed.
-
-Lemma inet_make_colon pton6 ip p flag : has_colon ip = true -> sa_family (inet_make pton6 ip p flag) = AF_INET6.
-Proof. intros H. unfold inet_make. rewrite H, orb_true_r. reflexivity. Qed.
 
 (* ---- civil-time API = seconds-level lemmas ----------------------------------------------- *)
 
